@@ -1,6 +1,7 @@
 #![allow(dead_code)]
 //! vrlmc — bounded exhaustive exploration of vectordotdev/vrl (see /verif/DESIGN.md).
 
+mod explore;
 mod model;
 mod props;
 mod report;
@@ -18,6 +19,8 @@ fn registry() -> Vec<(&'static str, RunFn, ReplayFn)> {
     vec![
         ("C10", props::ops::run_c10 as RunFn, props::ops::replay as ReplayFn),
         ("C11", props::ops::run_c11, props::ops::replay),
+        ("C18", props::c18::run, props::c18::replay),
+        ("C19", props::c19::run, props::c19::replay),
     ]
 }
 
